@@ -222,7 +222,8 @@ def splice_fn(out: Out, it: Item, file: str, fid: str, *, ret: str = 'res',
               foreach: List[dict] = (),
               sink: str = 'writer',
               imported: Optional[str] = None,
-              closures: List[dict] = ()):
+              closures: List[dict] = (),
+              loop_isolation: bool = True):
     """emit fn item `it` with contract clauses spliced between its signature and its body.
     Executable tokens of the body are emitted unchanged and in order."""
     toks = it.toks
@@ -259,6 +260,9 @@ def splice_fn(out: Out, it: Item, file: str, fid: str, *, ret: str = 'res',
         # ghost splices belong to the proof of the body, which is not done here
         loops, inserts, opaque, foreach = {}, (), (), ()
     # ---- signature
+    if not loop_isolation and not (imported and it.open is not None):
+        # let loops see the facts established before them (Verus isolates loop bodies by default)
+        out.spec('    #[verifier::loop_isolation(false)]')
     if arrow is not None:
         sig_a = _slice(it, hf, r0)
         # return type text without trailing whitespace
@@ -326,6 +330,8 @@ def splice_fn(out: Out, it: Item, file: str, fid: str, *, ret: str = 'res',
         if spec.get('decreases'):
             lst.append((f"        decreases {spec['decreases']},", f'{fid}#loop{ordinal}-decreases'))
         ins.setdefault(ob, []).extend(lst)
+        if spec.get('body_prefix'):
+            ins.setdefault(ob + 1, []).append((spec['body_prefix'], None))
 
     body_a, body_b = toks[it.open].start, toks[it.last].end
     # ---- closure postconditions: `|p| EXPR` becomes `|p| -> (b: T) ensures E { EXPR }` (additive; Verus infers
@@ -343,20 +349,32 @@ def splice_fn(out: Out, it: Item, file: str, fid: str, *, ret: str = 'res',
                 ins_b['occurrence'] = oc
             inserts += [ins_a, ins_b]
     for d in inserts:
-        pat = d['at']
-        occ = [m.start() for m in re.finditer(re.escape(pat), it.src[body_a:body_b])]
-        want = d.get('occurrence')
-        if want is None and len(occ) != 1:
-            raise AnchorLost(f'{fid}: text anchor {pat!r} occurs {len(occ)} times in {file}:{it.line_span}')
-        if want is not None and want >= len(occ):
-            raise AnchorLost(f'{fid}: text anchor {pat!r} occurrence {want} missing')
-        pos = body_a + occ[want or 0]
-        if 'offset' in d:
-            pos += d['offset']
-        elif d.get('where', 'before') == 'after':
-            pos += len(pat)
-        # token at/after pos
-        ti = next(k for k in range(it.open, it.last + 1) if toks[k].start >= pos)
+        if d.get('pos') == 'body_start':
+            ti = it.open + 1
+        elif d.get('pos') == 'body_end':
+            ti = it.last
+        else:
+            pat = d['at']
+            if d.get('flex'):
+                rx = re.compile(r'\s*'.join(re.escape(x) for x in pat.split(' ')))
+                ms = list(rx.finditer(it.src[body_a:body_b]))
+                occ = [m.start() for m in ms]
+                plen = [m.end() - m.start() for m in ms]
+            else:
+                occ = [m.start() for m in re.finditer(re.escape(pat), it.src[body_a:body_b])]
+                plen = [len(pat)] * len(occ)
+            want = d.get('occurrence')
+            if want is None and len(occ) != 1:
+                raise AnchorLost(f'{fid}: text anchor {pat!r} occurs {len(occ)} times in {file}:{it.line_span}')
+            if want is not None and want >= len(occ):
+                raise AnchorLost(f'{fid}: text anchor {pat!r} occurrence {want} missing')
+            pos = body_a + occ[want or 0]
+            if 'offset' in d:
+                pos += d['offset']
+            elif d.get('where', 'before') == 'after':
+                pos += plen[want or 0]
+            # token at/after pos
+            ti = next(k for k in range(it.open, it.last + 1) if toks[k].start >= pos)
         if d.get('inline'):
             inline[ti] = inline.get(ti, '') + d['text']
         else:
